@@ -54,15 +54,19 @@ class TG:
         return self.r.choice([1, 2, 3, 5, 7, 10, 16, 100])
 
     # -- atoms: (items leaving a 0/1-or-nonzero word, description, kind) ------------------------------------------
-    def atom(self, types):
+    def atom(self, types, force=None):
         r = self.r
         words = [i for i, t in enumerate(types) if not e2e_is_dyn(t)]
         dyns = [i for i, t in enumerate(types) if e2e_is_dyn(t)]
         kinds = ["cmp", "cmp", "lin", "mul", "div", "mod", "store", "unsat", "divzero"]
+        if force == "eqconst" and words:
+            x = r.choice(words)
+            c = self.const()
+            return [("PUSH", c)] + arg(x) + ["EQ"], f"a{x} EQ {c:#x}", "plain"
         if dyns:
             kinds += ["dyn", "dyn", "dyn"]
         if len(words) >= 2:
-            kinds += ["cmp2", "lin2", "mul2", "div2"]
+            kinds += ["cmp2", "lin2", "mul2", "div2", "div2", "exp2"]
         k = r.choice(kinds)
         x = r.choice(words) if words else None
         if x is None:
@@ -93,9 +97,14 @@ class TG:
         if k == "div":
             c1, c2 = self.small(), r.choice([0, 1, 7, 1000])
             return [("PUSH", c2), ("PUSH", c1)] + arg(x) + ["DIV", "EQ"], f"a{x}/{c1} == {c2}", "arith"
+        if k == "exp2":
+            y = r.choice([w for w in words if w != x])
+            c = r.choice([6, 1, 8, 0])
+            return ([("PUSH", c)] + arg(y) + arg(x) + ["EXP", "EQ", ("PUSH", 4)] + arg(x) + ["LT", "AND", ("PUSH", 4)] + arg(y) + ["LT", "AND"],
+                    f"a{x}**a{y} == {c} && a{x}<4 && a{y}<4", "exp")
         if k == "div2":
             y = r.choice([w for w in words if w != x])
-            c = r.choice([0, 1, 3, 7])
+            c = r.choice([0, 1, 3, 7, M256, M256, 1 << 255])
             op = r.choice(["DIV", "MOD", "SDIV", "SMOD"])
             return [("PUSH", c)] + arg(y) + arg(x) + [op, "EQ"], f"{op}(a{x},a{y}) == {c}", "arith"
         if k == "mod":
@@ -172,6 +181,8 @@ class TG:
         form = r.choice(["and", "and", "and", "ifelse", "assert"])
         n = r.choice([1, 1, 2, 2, 3]) if form != "ifelse" else 3
         atoms = [self.atom(types) for _ in range(n)]
+        if form == "ifelse" and r.random() < 0.6:
+            atoms[0] = self.atom(types, force="eqconst")  # the then-arm pins an argument; the else-arm re-reads it
         fail, fdesc = self.failure()
         body = []
         if form == "and":
